@@ -5,9 +5,9 @@ import treelib as T
 
 PID = "C10"
 LEVEL = "proof"
-COQ_TARGETS = ["Props/C10.vo", "Props/C10_fp.vo"]
-PROPS_FILES = ["C10", "C10_fp"]
-THEOREMS = ["C10_fingerprints", "C10_try_sample_ok", "C10_proportional", "C10_zero_total", "C10_after_history",
+COQ_TARGETS = ["Props/C10.vo", "Props/C10_fp.vo", "Props/C10_float.vo"]
+PROPS_FILES = ["C10", "C10_fp", "C10_float"]
+THEOREMS = ["C10_float_assert_refuted", "C10_float_new_errors", "C10_float_error_atomic", "C10_fingerprints", "C10_try_sample_ok", "C10_proportional", "C10_zero_total", "C10_after_history",
             "C10_canon_in_range", "C10_nonvacuous"]
 TRUSTED_BASE = [
     "Coq 8.16.1 kernel + vm_compute; all C10 theorems print 'Closed under the global context'",
